@@ -4,7 +4,7 @@
     // by that k, so the answer for one Instant is the same at every call (the clock is frozen within a harness)
     // and independent across Instants. Every backend therefore is, independently, inside or outside its back-off.
     use std::time::{Duration, Instant};
-    const N: usize = 3;
+    const N: usize = 2;
     // Clock: Instant::now() is clock_gettime (foreign, outside Kani) -> stub returns a fixed Instant. Backend i's retry
     // policy is given last_try = base + i seconds, and the stubbed elapsed() answers ELAPSED_S[i] for that Instant:
     // one symbolic value per backend, the same at every call (the clock is frozen within a harness).
@@ -81,7 +81,7 @@
     fn sticky_wins_iff_its_backend_is_eligible() {
         let (mut l, facts) = setup(Box::new(RoundRobin::new()));
         let w: u8 = kani::any();
-        let (want, widx) = match w % 4 { 0 => ("s0", Some(0usize)), 1 => ("s1", Some(1usize)), 2 => ("s2", Some(2usize)), _ => ("zz", None) };
+        let (want, widx) = match w % 3 { 0 => ("s0", Some(0usize)), 1 => ("s1", Some(1usize)), _ => ("zz", None) };
         let r = l.find_sticky(want).map(|b| b.clone());
         match widx {
             None => assert!(r.is_none()),
